@@ -3,8 +3,9 @@
 From Coq Require Import ZArith QArith List Bool.
 From Centro Require Import Base.VecC13 Proofs.VecC13Proofs Model.MeasureC13 Proofs.MeasureC13Proofs Model.EllipseCoordsC13 Proofs.EllipseC13Proofs
   Proofs.PadC13Proofs Proofs.TranslateC13Proofs Proofs.EllipseRowsC13.
-From Centro Require Model.Circle Model.CircleVec Model.Feret Proofs.CircleVecProofs Proofs.CircleVecStep Model.MecFeretC13 Proofs.MecFeretC13Proofs.
-From Centro Require Model.Hull Proofs.HullBatch Model.HullAreaC13 Proofs.HullAreaC13Proofs Model.MedianC18 Spec.SpecC18 Proofs.MedianC13Proofs Model.IndexesC18 Proofs.IndexesC18Proofs.
+From Centro Require Model.Circle Model.CircleVec Model.Feret Proofs.CircleVecProofs Proofs.CircleVecStep Model.MecFeretC13 Proofs.MecFeretC13Proofs
+  Spec.HullSpec Spec.MecSpec Spec.FeretSpec Spec.FeretBrute Proofs.OwnRowsC13 Proofs.EndToEndC13 Proofs.MecVecOwnerC13 Proofs.HullBoundC13.
+From Centro Require Proofs.HullGuard Model.Hull Proofs.HullBatch Model.HullAreaC13 Proofs.HullAreaC13Proofs Model.MedianC18 Spec.SpecC18 Proofs.MedianC13Proofs Model.IndexesC18 Proofs.IndexesC18Proofs.
 Import ListNotations.
 Open Scope Z_scope.
 
@@ -265,57 +266,170 @@ Theorem C13_indexes_rowmajor : forall counts : list (list nat),
 Proof. exact IndexesC18Proofs.indexes_rowmajor. Qed.
 Print Assumptions C13_indexes_rowmajor.
 
-(* ---- calculate_convex_hull_areas (and, divided into the area, calculate_solidity) ----
-   HullAreaC13.hull_area_obj is the value of one object from its own hull vertices (mean point, +1
-   fix-ups, triangle fan, modulo wrap), compared with the implementation on every generated object.
-   Composition with C02's model of convex_hull_ijv: position r of the batch is that function of the rows
-   of label indexes[r] only -- and of the kernel's buffer slack.  _partial: that the slack is irrelevant
-   (C02 guard_irrelevant) is only proved finitely in C02, and the vectorised bookkeeping of the area
-   loop itself (index_of_label, cumsum(counts_nd), modulo_mask) is tied by correspondence, not proved.
-   minimum_enclosing_circle and feret_diameter: see the next block. *)
-Theorem C13_hull_area_own_rows_partial : forall ijv indexes r,
-  NoDup indexes -> (r < length indexes)%nat ->
-  exists slack,
-    nth r (HullAreaC13.hull_areas_rows (fst (Hull.convex_hull_ijv ijv indexes))) (0, 0%Q) =
-    HullAreaC13.hull_area_obj
-      (Hull.hull_label (Hull.zmax_list (map Hull.r_i (Hull.lexsort ijv)))
-                       (map Hull.r_pt (HullBatch.sel (nth r indexes 0) (Hull.lexsort ijv))) slack).
-Proof. exact HullAreaC13Proofs.hull_area_own_rows. Qed.
-Print Assumptions C13_hull_area_own_rows_partial.
+(* ---- hull area / solidity, minimum_enclosing_circle, feret_diameter: per-object models on the rows of
+   C02's convex_hull_ijv.  With C02's Full kernel theorems (guard_irrelevant, hull_no_overflow,
+   hull_label_correct) there is no slack caveat any more: position r carries the per-object model applied to
+   OwnRowsC13.own_hull ijv l = the guard-free kernel on label l's own rows in buffer order (the only other
+   input is the call's largest row index, the kernel's envelope sentinel), and that polygon meets C02's full
+   hull specification for exactly label l's pixels. ---- *)
 
-(* ---- minimum_enclosing_circle / feret_diameter: C14's models on the hull rows of C02's model ----
-   MecFeretC13.mec_rows / feret_rows: per-object Chrystal iteration / antipodal sweep on each row of the call;
-   mec_rows_vec: C14's vectorised bookkeeping model on the same rows.  On every generated scene the three are
-   compared with the implementation and mec_rows_vec with mec_rows exactly.
-   _partial: (1) C02's guard_irrelevant is finite, so the kernel's hull is a function of the label's own
-   rows and the buffer slack; (2) for the vectorised loop C14 proves independence of a pass; the lift to the
-   whole loop below assumes that every object's S0 / S1 stay among its own rows (missing lemma: owner is
-   preserved by vstep; idle frame for finished objects when the loop lengths differ), and
-   chrystal_vec = map chrystal is established by exact model-vs-model comparison only. *)
-Theorem C13_mec_own_rows_partial : forall ijv indexes r,
-  NoDup indexes -> (r < length indexes)%nat ->
-  exists slack,
-    nth r (MecFeretC13.mec_rows (fst (Hull.convex_hull_ijv ijv indexes))) (Circle.chrystal []) =
-    Circle.chrystal (Hull.hull_label (Hull.zmax_list (map Hull.r_i (Hull.lexsort ijv)))
-                                     (map Hull.r_pt (HullBatch.sel (nth r indexes 0) (Hull.lexsort ijv))) slack).
-Proof. exact MecFeretC13Proofs.mec_own_rows. Qed.
-Print Assumptions C13_mec_own_rows_partial.
+Theorem C13_own_hull_spec : forall ijv l,
+  OwnRowsC13.nonneg_rows ijv -> HullSpec.HullSpec (HullSpec.pts_of ijv l) (OwnRowsC13.own_hull ijv l).
+Proof. exact OwnRowsC13.own_hull_spec. Qed.
+Print Assumptions C13_own_hull_spec.
 
-Theorem C13_feret_own_rows_partial : forall ijv indexes r,
-  NoDup indexes -> (r < length indexes)%nat ->
-  exists slack,
-    nth r (MecFeretC13.feret_rows (fst (Hull.convex_hull_ijv ijv indexes))) (Feret.sweep []) =
-    Feret.sweep (Hull.hull_label (Hull.zmax_list (map Hull.r_i (Hull.lexsort ijv)))
-                                 (map Hull.r_pt (HullBatch.sel (nth r indexes 0) (Hull.lexsort ijv))) slack).
-Proof. exact MecFeretC13Proofs.feret_own_rows. Qed.
-Print Assumptions C13_feret_own_rows_partial.
+Theorem C13_hull_area_own_rows : forall ijv indexes r,
+  NoDup indexes -> (r < length indexes)%nat -> OwnRowsC13.nonneg_rows ijv ->
+  nth r (HullAreaC13.hull_areas_rows (fst (Hull.convex_hull_ijv ijv indexes))) (HullAreaC13.hull_area_obj []) =
+  HullAreaC13.hull_area_obj (OwnRowsC13.own_hull ijv (nth r indexes 0)).
+Proof. exact OwnRowsC13.hull_area_own_rows_full. Qed.
+Print Assumptions C13_hull_area_own_rows.
 
-Theorem C13_mec_vec_passes_independent_partial : forall rows app n k m st st',
-  (0 <= k < Z.of_nat n) -> CircleVecStep.samelen st st' -> CircleVecProofs.agree app k st st' ->
-  (forall j k', (j < m)%nat -> 0 <= k' < Z.of_nat n ->
-                CircleVecStep.owner app (MecFeretC13.vsteps rows app n j st) k') ->
-  (forall j k', (j < m)%nat -> 0 <= k' < Z.of_nat n ->
-                CircleVecStep.owner app (MecFeretC13.vsteps rows app n j st') k') ->
+Theorem C13_mec_own_rows : forall ijv indexes r,
+  NoDup indexes -> (r < length indexes)%nat -> OwnRowsC13.nonneg_rows ijv ->
+  nth r (MecFeretC13.mec_rows (fst (Hull.convex_hull_ijv ijv indexes))) (Circle.chrystal []) =
+  Circle.chrystal (OwnRowsC13.own_hull ijv (nth r indexes 0)).
+Proof. exact OwnRowsC13.mec_own_rows_full. Qed.
+Print Assumptions C13_mec_own_rows.
+
+Theorem C13_feret_own_rows : forall ijv indexes r,
+  NoDup indexes -> (r < length indexes)%nat -> OwnRowsC13.nonneg_rows ijv ->
+  nth r (MecFeretC13.feret_rows (fst (Hull.convex_hull_ijv ijv indexes))) (Feret.sweep []) =
+  Feret.sweep (OwnRowsC13.own_hull ijv (nth r indexes 0)).
+Proof. exact OwnRowsC13.feret_own_rows_full. Qed.
+Print Assumptions C13_feret_own_rows.
+
+(* request order, subsets, other requested labels: the entry of label l is the same wherever l stands in
+   any two repeat-free request lists *)
+Theorem C13_hull_area_request_position : forall ijv idx idx' r r',
+  NoDup idx -> NoDup idx' -> (r < length idx)%nat -> (r' < length idx')%nat -> OwnRowsC13.nonneg_rows ijv ->
+  nth r idx 0 = nth r' idx' 0 ->
+  nth r (HullAreaC13.hull_areas_rows (fst (Hull.convex_hull_ijv ijv idx))) (HullAreaC13.hull_area_obj []) =
+  nth r' (HullAreaC13.hull_areas_rows (fst (Hull.convex_hull_ijv ijv idx'))) (HullAreaC13.hull_area_obj []).
+Proof. exact OwnRowsC13.hull_area_request_position. Qed.
+Print Assumptions C13_hull_area_request_position.
+
+Theorem C13_mec_request_position : forall ijv idx idx' r r',
+  NoDup idx -> NoDup idx' -> (r < length idx)%nat -> (r' < length idx')%nat -> OwnRowsC13.nonneg_rows ijv ->
+  nth r idx 0 = nth r' idx' 0 ->
+  nth r (MecFeretC13.mec_rows (fst (Hull.convex_hull_ijv ijv idx))) (Circle.chrystal []) =
+  nth r' (MecFeretC13.mec_rows (fst (Hull.convex_hull_ijv ijv idx'))) (Circle.chrystal []).
+Proof. exact OwnRowsC13.mec_request_position. Qed.
+Print Assumptions C13_mec_request_position.
+
+Theorem C13_feret_request_position : forall ijv idx idx' r r',
+  NoDup idx -> NoDup idx' -> (r < length idx)%nat -> (r' < length idx')%nat -> OwnRowsC13.nonneg_rows ijv ->
+  nth r idx 0 = nth r' idx' 0 ->
+  nth r (MecFeretC13.feret_rows (fst (Hull.convex_hull_ijv ijv idx))) (Feret.sweep []) =
+  nth r' (MecFeretC13.feret_rows (fst (Hull.convex_hull_ijv ijv idx'))) (Feret.sweep []).
+Proof. exact OwnRowsC13.feret_request_position. Qed.
+Print Assumptions C13_feret_request_position.
+
+(* ---- end to end (C02 x C14): per requested label, with S = the label's own pixels and V = own_hull:
+   V is a C02 hull polygon of S; the circle returned is THE minimum enclosing circle of V and no circle
+   enclosing S is smaller; the Feret values are the brute-force maximum / minimum width of V.
+   _partial: "a disc (strip) that contains the vertices of V contains every point on the inner side of all
+   edges of V" (polygon_in_disc / polygon_in_strip) is not proved, so "encloses S" and "max / min width of S"
+   are stated for V, the polygon whose vertices are exactly the extreme points of S (C02_hull_exactly_extreme). *)
+Theorem C13_mec_end_to_end_partial : forall ijv indexes r,
+  NoDup indexes -> (r < length indexes)%nat -> OwnRowsC13.nonneg_rows ijv ->
+  let l := nth r indexes 0 in
+  let S := HullSpec.pts_of ijv l in
+  let V := OwnRowsC13.own_hull ijv l in
+  let res := nth r (MecFeretC13.mec_rows (fst (Hull.convex_hull_ijv ijv indexes))) (Circle.chrystal []) in
+  HullSpec.HullSpec S V /\
+  (S = [] -> res = Circle.CEmpty) /\
+  (S <> [] -> exists ny nx d rn,
+      res = Circle.CCircle ny nx d rn /\
+      MecSpec.MEC V (inject_Z ny / inject_Z d) (inject_Z nx / inject_Z d) (inject_Z rn / inject_Z (d * d)) /\
+      forall ex ey rho, MecSpec.Encloses S ex ey rho -> (inject_Z rn / inject_Z (d * d) <= rho)%Q).
+Proof. exact EndToEndC13.mec_end_to_end. Qed.
+Print Assumptions C13_mec_end_to_end_partial.
+
+Theorem C13_feret_end_to_end_partial : forall ijv indexes r,
+  NoDup indexes -> (r < length indexes)%nat -> OwnRowsC13.nonneg_rows ijv ->
+  let l := nth r indexes 0 in
+  let S := HullSpec.pts_of ijv l in
+  let V := OwnRowsC13.own_hull ijv l in
+  let res := nth r (MecFeretC13.feret_rows (fst (Hull.convex_hull_ijv ijv indexes))) (Feret.sweep []) in
+  HullSpec.HullSpec S V /\
+  exists mx mq, res = Some (mx, mq) /\ mx = FeretSpec.max_d2 V /\
+    ((length V <= 2)%nat -> mq = (0, 1)) /\
+    ((3 <= length V)%nat ->
+       exists bq, FeretBrute.bf_min V = Some bq /\ 0 < snd mq /\ 0 < snd bq /\ fst mq * snd bq = fst bq * snd mq).
+Proof. exact EndToEndC13.feret_end_to_end. Qed.
+Print Assumptions C13_feret_end_to_end_partial.
+
+(* ---- the vectorised loop (C14's Model/CircleVec.v) ---- *)
+
+(* owner is preserved by a pass: every object's S0 / S1 stay among its own rows *)
+Theorem C13_mec_vec_owner_preserved : forall rows app n st,
+  (forall k', 0 <= k' < Z.of_nat n -> CircleVecStep.owner app st k') ->
+  forall k, 0 <= k < Z.of_nat n -> CircleVecStep.owner app (CircleVec.vstep rows app n st) k.
+Proof. exact MecVecOwnerC13.vstep_owner. Qed.
+Print Assumptions C13_mec_vec_owner_preserved.
+
+(* Full: m passes keep two global states in agreement on object k's own entries, whatever the other
+   objects' entries are - from the invariant of the INITIAL states alone *)
+Theorem C13_mec_vec_passes_independent : forall rows app n k m st st',
+  0 <= k < Z.of_nat n -> CircleVecStep.samelen st st' -> CircleVecProofs.agree app k st st' ->
+  (forall k', 0 <= k' < Z.of_nat n -> CircleVecStep.owner app st k') ->
+  (forall k', 0 <= k' < Z.of_nat n -> CircleVecStep.owner app st' k') ->
   CircleVecProofs.agree app k (MecFeretC13.vsteps rows app n m st) (MecFeretC13.vsteps rows app n m st').
-Proof. exact MecFeretC13Proofs.mec_vec_passes_independent. Qed.
-Print Assumptions C13_mec_vec_passes_independent_partial.
+Proof. exact MecVecOwnerC13.mec_vec_passes_independent_owner. Qed.
+Print Assumptions C13_mec_vec_passes_independent.
+
+(* idle frame: a finished object is not touched by a later pass (so loops of different length agree on it) *)
+Theorem C13_mec_vec_idle_frame : forall rows app n st k,
+  0 <= k < Z.of_nat n -> (forall k', 0 <= k' < Z.of_nat n -> CircleVecStep.owner app st k') ->
+  CircleVec.nthz (CircleVec.v_keep st) k false = false ->
+  CircleVecProofs.agree app k (CircleVec.vstep rows app n st) st.
+Proof. exact MecVecOwnerC13.idle_frame. Qed.
+Print Assumptions C13_mec_vec_idle_frame.
+
+(* the invariant holds initially for every object with at least two hull rows (C14's own_block / own_anti) *)
+Theorem C13_mec_vec_init_owner : forall indexes blocks k l b,
+  NoDup indexes -> (forall j, In j indexes -> 0 <= j) -> length indexes = length blocks ->
+  nth_error indexes k = Some l -> nth_error blocks k = Some b -> (2 <= length b)%nat ->
+  let t := CircleVec.vec_init indexes blocks in
+  CircleVecStep.owner (snd (fst t)) (snd t) (Z.of_nat k).
+Proof. exact MecVecOwnerC13.vec_init_owner. Qed.
+Print Assumptions C13_mec_vec_init_owner.
+
+(* ---- independence from the other labels: the kernel's only non-own input, the sentinel max_i + 1 of the
+   lower envelope (max_i = largest row index of the whole call), is irrelevant ---- *)
+Theorem C13_hull_bound_irrelevant : forall m m' pts,
+  (forall s, In s pts -> 0 <= fst s <= m) -> (forall s, In s pts -> 0 <= fst s <= m') ->
+  HullGuard.hull_free m pts = HullGuard.hull_free m' pts.
+Proof. exact HullBoundC13.hull_free_bound_irrelevant. Qed.
+Print Assumptions C13_hull_bound_irrelevant.
+
+(* (a) + (b) for the three hull-based measurements, Full: two calls (other labels, other pixels of other
+   labels, other request lists, the label at any position) in which label l has the same rows in buffer
+   order return the same entry for l *)
+Theorem C13_hull_area_independent : forall ijv ijv' idx idx' r r',
+  NoDup idx -> NoDup idx' -> (r < length idx)%nat -> (r' < length idx')%nat ->
+  OwnRowsC13.nonneg_rows ijv -> OwnRowsC13.nonneg_rows ijv' -> nth r idx 0 = nth r' idx' 0 ->
+  OwnRowsC13.own_rows ijv (nth r idx 0) = OwnRowsC13.own_rows ijv' (nth r idx 0) ->
+  nth r (HullAreaC13.hull_areas_rows (fst (Hull.convex_hull_ijv ijv idx))) (HullAreaC13.hull_area_obj []) =
+  nth r' (HullAreaC13.hull_areas_rows (fst (Hull.convex_hull_ijv ijv' idx'))) (HullAreaC13.hull_area_obj []).
+Proof. exact HullBoundC13.hull_area_independent. Qed.
+Print Assumptions C13_hull_area_independent.
+
+Theorem C13_mec_independent : forall ijv ijv' idx idx' r r',
+  NoDup idx -> NoDup idx' -> (r < length idx)%nat -> (r' < length idx')%nat ->
+  OwnRowsC13.nonneg_rows ijv -> OwnRowsC13.nonneg_rows ijv' -> nth r idx 0 = nth r' idx' 0 ->
+  OwnRowsC13.own_rows ijv (nth r idx 0) = OwnRowsC13.own_rows ijv' (nth r idx 0) ->
+  nth r (MecFeretC13.mec_rows (fst (Hull.convex_hull_ijv ijv idx))) (Circle.chrystal []) =
+  nth r' (MecFeretC13.mec_rows (fst (Hull.convex_hull_ijv ijv' idx'))) (Circle.chrystal []).
+Proof. exact HullBoundC13.mec_independent. Qed.
+Print Assumptions C13_mec_independent.
+
+Theorem C13_feret_independent : forall ijv ijv' idx idx' r r',
+  NoDup idx -> NoDup idx' -> (r < length idx)%nat -> (r' < length idx')%nat ->
+  OwnRowsC13.nonneg_rows ijv -> OwnRowsC13.nonneg_rows ijv' -> nth r idx 0 = nth r' idx' 0 ->
+  OwnRowsC13.own_rows ijv (nth r idx 0) = OwnRowsC13.own_rows ijv' (nth r idx 0) ->
+  nth r (MecFeretC13.feret_rows (fst (Hull.convex_hull_ijv ijv idx))) (Feret.sweep []) =
+  nth r' (MecFeretC13.feret_rows (fst (Hull.convex_hull_ijv ijv' idx'))) (Feret.sweep []).
+Proof. exact HullBoundC13.feret_independent. Qed.
+Print Assumptions C13_feret_independent.
